@@ -1,7 +1,8 @@
 """Input families for the bounded run-time evaluation of the C12 contracts (samplers)."""
 from rt.registry import scenario
 
-BOXES = [[(0.0, 1.0)], [(-5.0, -1.0), (0.0, 1e-3)], [(-100.0, 100.0), (2.0, 3.0), (-1.0, 1.0)], [(0.0, 1.0)] * 5]
+BOXES = [[(0.0, 1.0)], [(-5.0, -1.0), (0.0, 1e-3)], [(-100.0, 100.0), (2.0, 3.0), (-1.0, 1.0)], [(0.0, 1.0)] * 5,
+         [(0, 3), (-2, 5)]]        # the last box declares its bounds as Python ints
 PRIMES = [2, 3, 5, 7, 11, 13, 17, 19, 23, 29, 31, 37]
 
 
@@ -74,9 +75,22 @@ def halton(rng, tier):
     return _gen_cases("HaltonGenerator", rng, tier, [1, 2, 3, 5, 8, 13, 40, 200, 243, 244, 730])      # exact powers of the bases
 
 
-@scenario("artap.operators:RandomGenerator.generate", bound="N in {0,1,2,5,40}, 4 boxes, seeds")
+@scenario("artap.operators:RandomGenerator.generate", bound="N in {0,1,2,5,40}, 5 boxes, seeds; parameters with a coarse precision (coinciding draws)")
 def rand(rng, tier):
-    return _gen_cases("RandomGenerator", rng, tier, [0, 1, 2, 5, 40])
+    for c in _gen_cases("RandomGenerator", rng, tier, [0, 1, 2, 5, 40]):
+        yield c
+    # coarse precision: many of the N draws coincide, the generator still returns N designs
+    import random as _r
+    import artap.operators as ops
+    for n in (5, 40):
+        ps = [{'name': 'a', 'bounds': [0.0, 1.0], 'precision': 0.5}, {'name': 'b', 'bounds': [-2.0, 2.0], 'precision': 1.0}]
+        g = ops.RandomGenerator(ps)
+        g.init(n)
+
+        def call(self, n=n):
+            _r.seed(n)
+            return self.generate()
+        yield {"call": call, "args": {"self": g}, "extra": _X, "label": "coarse precision n=%d" % n}
 
 
 @scenario("artap.operators:UniformGenerator.generate#grid", bound="k in {2,3,4,7} levels, boxes with 1-5 parameters (5 parameters: k <= 3); every k in 2..60 for four 1-2 parameter boxes")
